@@ -140,6 +140,43 @@ def run(prog: Program) -> Results:
                                 f"{g.key}: the same-named attribute of the set itself is consulted before (or without) the enclosing "
                                 f"let bindings: in a non-rec set the attribute is not in scope for its own values, so the wrong "
                                 f"binding would be rewritten")
+    # ---------------------------------------------------------------- R-C11-3 no stale chain when an owner is given
+    r3 = res.rule("R-C11-3", "an owner-relative attach recomputes the scope chain: in attach_resolution_context the chain remembered "
+                  "on the expression (`_get_context(expr).scopes`) flows into the stored context only on paths where no owner was "
+                  "given; with an owner it is `scopes_for_owner(owner)`, which sees bindings added since the last lookup", floor=2)
+    arc = prog.func("attach_resolution_context")
+    res.analysed_functions.add(arc.key)
+    acfg = CFG(arc.node)
+    owner_p = next((p_ for p_ in arc.params() if p_ == "owner"), None)
+    expr_p = arc.params()[0]
+    if owner_p is None:
+        res.unclass("attach_resolution_context has no `owner` parameter")
+    else:
+        no_owner = edges_establishing(acfg, lambda a, t: (norm(a) == f"{owner_p} is None" and t is True) or
+                                      (norm(a) == f"{owner_p} is not None" and t is False) or (norm(a) == owner_p and t is False))
+        remembered = {norm(d.targets[0]) for d in walk_no_nested(arc.node) if isinstance(d, ast.Assign) and isinstance(d.value, ast.Call)
+                      and callee(d.value) == "_get_context" and d.value.args and norm(d.value.args[0]) == expr_p}
+        for n in acfg.nodes:
+            a = n.ast
+            if not isinstance(a, ast.Assign):
+                continue
+            v = norm(a.value)
+            if any(v == f"{m}.scopes" for m in remembered) or f"_get_context({expr_p}).scopes" in v:
+                r3.instances += 1
+                ok = bool(no_owner) and acfg.all_paths_pass(n, cut_edges=no_owner)
+                r3.ob(ok, {"statement": norm(a), "only_without_owner": ok})
+                if not ok:
+                    res.add("R-C11-3", (arc.key, "remembered chain used although an owner is given"), arc.loc(a),
+                            f"attach_resolution_context: `{norm(a)}` is reachable when an owner is passed: the chain stamped on the "
+                            f"reference by an earlier lookup is reused, so a binding added since then (e.g. a rec-level `v` shadowing a "
+                            f"let-level `v`) is ignored and the next assignment through the reference rewrites the shadowed binding")
+        calls = [c for c in walk_no_nested(arc.node) if isinstance(c, ast.Call) and callee(c) == "scopes_for_owner"]
+        r3.instances += 1
+        ok = len(calls) == 1 and norm(calls[0].args[0]) == owner_p
+        r3.ob(ok, {"owner_chain": [norm(c) for c in calls]})
+        if not ok:
+            res.add("R-C11-3", (arc.key, "owner chain not recomputed"), arc.loc(), "attach_resolution_context does not call scopes_for_owner(owner)")
+
     # shared clauses: chain orientation and with precedence (C10)
     from sa.rules import c10
     sub = c10.run(prog)
